@@ -6,9 +6,13 @@ PATCH="$1"; ID="$2"; B="${3:-30}"; shift 3 || shift 2
 SCR=/dev/shm/mutverif; rm -rf $SCR; mkdir -p $SCR
 cp /verif/known_findings.json $SCR/ 2>/dev/null
 cd /repo || exit 2
-git diff --quiet || { echo "repo dirty, refusing"; exit 2; }
-git apply "$PATCH" || { echo "patch does not apply"; exit 2; }
-trap 'git -C /repo checkout -- . ' EXIT
+git diff --quiet && git diff --cached --quiet || { echo "repo dirty, refusing"; exit 2; }
+if ! git apply "$PATCH" 2>/dev/null; then
+  git apply --3way "$PATCH" 2>/dev/null || { echo "patch does not apply"; git reset -q --hard HEAD; exit 3; }
+fi
+trap 'git -C /repo reset -q --hard HEAD' EXIT
 cd /verif
-timeout 1500 ./check "$ID" --budget-secs "$B" --verif-dir $SCR "$@" 2>&1 | tail -12
-echo "check exit=${PIPESTATUS[0]}"
+timeout 1500 ./check "$ID" --budget-secs "$B" --verif-dir $SCR "$@" > $SCR/out.txt 2>&1
+rc=$?
+grep -E "VIOLATION|KNOWN-FINDING|HARNESS|violation class|runs \(|executions \(" $SCR/out.txt | cut -c1-220 | head -10
+echo "check exit=$rc"
